@@ -94,6 +94,51 @@ fn buffer_scenario(ctx: &mut Ctx, len: usize) {
     }
 }
 
+/// cap stress: small caps (2..4) on a hot (source, key) that overflows many times, with arrivals whose
+/// old timestamps lie outside the window of the current time in between, so that `try_correlate` has
+/// to skip the newest buffered entries and the *order* of the survivors of the cap matters
+fn cap_scenario(ctx: &mut Ctx, len: usize) {
+    let nsrc = ctx.rng.range(2, 3) as usize;
+    let win = ctx.rng.range(2, 6) * 1000;
+    let max = ctx.rng.range(2, 4) as usize;
+    let nkeys = ctx.rng.range(1, 2) as u64;
+    let sources: Vec<String> = SRC[..nsrc].iter().map(|s| s.to_string()).collect();
+    let join_keys: Vec<(String, String)> = sources.iter().map(|s| (s.clone(), "k".to_string())).collect();
+    let mut jb = JoinBuffer::new(sources.clone(), mk_map(join_keys), Duration::milliseconds(win)).with_max_events(max);
+    ctx.directive(&format!("new join src={} win={} max={}", (0..nsrc).map(|i| i.to_string()).collect::<Vec<_>>().join(","), win, max));
+    ctx.count(&format!("cap.scenarios.max{}", max));
+    let hot = ctx.rng.below(nsrc as u64) as usize;
+    let unit = win / 20;
+    let mut now: i64 = win * 2;
+    let mut pushed = vec![vec![0usize; nkeys as usize]; nsrc];
+    for id in 0..len {
+        let si = if ctx.rng.chance(7, 10) { hot } else { ctx.rng.below(nsrc as u64) as usize };
+        let key = ctx.rng.below(nkeys);
+        let r = ctx.rng.below(100);
+        let ts = if r < 45 { now += ctx.rng.range(0, 3) * unit; now }                          // in order, well inside the window
+            else if r < 80 { ctx.count("cap.old-arrival"); (now - win - ctx.rng.range(1, 12) * unit).max(0) } // older than a window
+            else { (now - ctx.rng.range(1, 15) * unit).max(0) };                                   // late but inside the window
+        pushed[si][key as usize] += 1;
+        if pushed[si][key as usize] > max { ctx.count("cap.push-beyond-cap"); }
+        let ev = Event::new(sources[si].clone()).with_timestamp(at(ts)).with_field("eid", id as i64)
+            .with_field(format!("f{}", sources[si]), id as i64).with_field("k", format!("k{}", key));
+        let res = jb.add_event(&sources[si], ev);
+        let r = match &res {
+            None => { ctx.count("cap.none"); "none".to_string() }
+            Some(j) => {
+                ctx.count("cap.join");
+                let ids: Vec<String> = sources.iter().map(|s| int_of(j.data.get(format!("{}.eid", s).as_str()))).collect();
+                let mut s = format!("join ts={} ids={}", j.timestamp.timestamp_millis() - BASE_MS, ids.join(","));
+                if int_of(j.data.get("eid")) != ids[0] { s.push_str(" BARE-ID-NOT-FIRST-SOURCE"); }
+                s
+            }
+        };
+        let st = jb.stats();
+        let n: Vec<String> = sources.iter().map(|s| st.events_per_source.get(s).copied().unwrap_or(0).to_string()).collect();
+        ctx.case(&format!("add {} {} {} {}", si, key, ts, id), &format!("{} n={}", r, n.join(",")));
+    }
+}
+
 fn program(nsrc: usize, win: i64, via_streams: bool) -> String {
     let mut p = String::new();
     for s in &SRC[..nsrc] { p.push_str(&format!("event E{}:\n    k: str\n    eid: int\n\n", s)); }
@@ -153,16 +198,17 @@ pub fn run(ctx: &mut Ctx, _name: &str) {
     witness(ctx);
     let (nb, ne) = if ctx.thorough { (3000, 1000) } else { (300, 100) };
     for _ in 0..nb { let len = ctx.rng.range(4, 30) as usize; buffer_scenario(ctx, len); }
+    for _ in 0..nb / 2 { let len = ctx.rng.range(10, 40) as usize; cap_scenario(ctx, len); }
     for _ in 0..ne { let len = ctx.rng.range(4, 30) as usize; engine_scenario(ctx, &rt, len); }
 }
 
 fn witness(ctx: &mut Ctx) {
-    let run = |ctx: &mut Ctx, max: usize, evs: &[(usize, i64)]| {
+    let run = |ctx: &mut Ctx, win: i64, max: usize, evs: &[(usize, i64)]| {
         let sources = vec!["A".to_string(), "B".to_string()];
         let jk: Vec<(String, String)> = sources.iter().map(|s| (s.clone(), "k".to_string())).collect();
-        let mut jb = JoinBuffer::new(sources.clone(), mk_map(jk), Duration::milliseconds(10_000));
+        let mut jb = JoinBuffer::new(sources.clone(), mk_map(jk), Duration::milliseconds(win));
         if max != 1000 { jb = jb.with_max_events(max); }
-        ctx.directive(&format!("new join src=0,1 win=10000 max={}", max));
+        ctx.directive(&format!("new join src=0,1 win={} max={}", win, max));
         for (id, (si, ts)) in evs.iter().enumerate() {
             let ev = Event::new(sources[*si].clone()).with_timestamp(at(*ts)).with_field("eid", id as i64).with_field("k", "x");
             let res = jb.add_event(&sources[*si], ev);
@@ -175,6 +221,9 @@ fn witness(ctx: &mut Ctx) {
             ctx.case(&format!("add {} 0 {} {}", si, ts, id), &format!("{} n={}", r, n.join(",")));
         }
     };
-    run(ctx, 1000, &[(0, 90_000), (0, 105_000), (0, 91_000), (1, 101_000), (1, 112_000)]);
-    run(ctx, 2, &[(0, 108_000), (0, 95_000), (0, 96_000), (1, 110_000)]);
+    run(ctx, 10_000, 1000, &[(0, 90_000), (0, 105_000), (0, 91_000), (1, 101_000), (1, 112_000)]);
+    run(ctx, 10_000, 2, &[(0, 108_000), (0, 95_000), (0, 96_000), (1, 110_000)]);
+    // cap 3 overflowed twice, the second time by an old-timestamp arrival: B@14 must take A@13 (id 3),
+    // the most recently arrived in-window A — which A survives the cap, and in which order, matters
+    run(ctx, 5_000, 3, &[(0, 10_000), (0, 11_000), (0, 12_000), (0, 13_000), (0, 1_000), (1, 14_000)]);
 }
